@@ -196,6 +196,16 @@ type MessageDebug struct {
 
 func (*MessageDebug) GetID() uint32 { return 50020 }
 
+// char[1]: an array of one character (its length byte is part of CRC_EXTRA), next to a scalar char
+type MessageVfCharOne struct {
+	A uint16
+	S string `mavlen:"1"`
+	T string
+	U string `mavlen:"2"`
+}
+
+func (*MessageVfCharOne) GetID() uint32 { return 50041 }
+
 // a struct written by a generator that spells the tag out on every field: only mavext:"true" marks an extension
 type MessageVfExtSpelled struct {
 	A uint8    `mavext:"false"`
@@ -265,7 +275,7 @@ func userMessages() []message.Message {
 	return []message.Message{
 		&MessageVfOne{}, &MessageVfAllTypes{}, &MessageVfStable{}, &MessageVfExtMix{}, &MessageVfMavname{},
 		&MessageVfBig255{}, &MessageVfBigString{}, &MessageVfSingle{}, &MessageVfEnums{}, &MessageVfBaseAndBigExt{},
-		&MessageVfEsc_1To_4{}, &MessageVf2Gps2Raw{}, &MessageVfWide{}, &MessageVfHighID{}, &MessageVfLowID{}, &MessageDebug{}, &MessageVfExtSpelled{},
+		&MessageVfEsc_1To_4{}, &MessageVf2Gps2Raw{}, &MessageVfWide{}, &MessageVfHighID{}, &MessageVfLowID{}, &MessageDebug{}, &MessageVfExtSpelled{}, &MessageVfCharOne{},
 		// a user package called "common" with messages that carry the names and ids of shipped ones and other definitions
 		&twincommon.MessageHeartbeat{}, &twincommon.MessageDebug{}, &twincommon.MessageParamRequestRead{},
 	}
